@@ -98,8 +98,14 @@ def run_program(prog, chooser, lines=False, policy=()):
         if kind.startswith("gated"):
             state["gate"] = D.Event()
 
-        def task(a, k=None):
-            sched.emit("body-begin", args_ok=(a == 1 and k == 2))
+        # how the arguments reach execute(): both given, or None for the positional / keyword part (documented defaults)
+        argstyle = prog.get("argstyle", "both")
+        exec_args = {"both": ((1,), {"k": 2}), "none": (None, None), "args": ([1], None), "kwargs": (None, {"k": 2}),
+                     "empty": ((), {})}[argstyle]
+        want_args = {"both": (1, 2), "none": ("da", "dk"), "args": (1, "dk"), "kwargs": ("da", 2), "empty": ("da", "dk")}[argstyle]
+
+        def task(a="da", k="dk"):
+            sched.emit("body-begin", args_ok=((a, k) == want_args))
             try:
                 if state["gate"] is not None:
                     state["gate"].wait()
@@ -111,7 +117,7 @@ def run_program(prog, chooser, lines=False, policy=()):
 
         def exec_thread():
             try:
-                fut.execute(task, (1,), {"k": 2})
+                fut.execute(task, exec_args[0], exec_args[1])
                 sched.emit("execute-returned", raised=None)
             except Exception as ex:
                 sched.emit("execute-returned", raised=ex)
@@ -386,6 +392,8 @@ def analyse(prog, sched, state, error):
     if not regs:
         classes.append("no-registration")
     classes.append("task:" + prog["task"])
+    if prog.get("argstyle", "both") != "both":
+        classes.append("execute-args:" + prog["argstyle"])
     if sched.timer_fires:
         classes.append("timeout-fired")
     return nontrivial, classes
@@ -424,6 +432,8 @@ MICRO = [
     {"task": "ret-future-failed", "threads": [[("cb", "ok"), ("result", None), ("done",)]], "exec_first": True},
     {"task": "ret-future-pending", "threads": [[("result", 1.0), ("cb", "ok")]], "exec_first": True},
     {"task": "gated-raise", "threads": [[("cb", "callable-object"), ("cb", "method"), ("result", None)]], "exec_first": True},
+    {"task": "ret", "argstyle": "none", "threads": [[("cb", "ok"), ("done",)]], "exec_first": True},
+    {"task": "raise", "argstyle": "kwargs", "threads": [[("result", None)], [("cb", "ok")]], "exec_first": False},
     {"task": "ret", "threads": [[("cb", "flex-typeerror"), ("result", None), ("cb", "flex-typeerror")]], "exec_first": True},
     {"task": "raise", "threads": [[("cb", "flex-ok")], [("cb", "flex-typeerror")]], "exec_first": False},
 ]
@@ -491,6 +501,7 @@ def random_cases(draw):
         "exec_first": draw(st.booleans()),
         # the task's exception may be an instance whose truth value is False
         "falsy_exc": draw(st.integers(0, 3)) == 0,
+        "argstyle": draw(st.sampled_from(["both", "both", "none", "args", "kwargs", "empty"])),
     }
     kind = draw(st.sampled_from(["random", "random", "preempt"]))
     if kind == "random":
